@@ -134,8 +134,8 @@ class Check(object):
                 subprocess.run(["coq_makefile", "-f", "_CoqProject", "-o", "Makefile"], cwd=COQ, capture_output=True)
             target = rel[:-2] + ".vo"
             try:
-                m = subprocess.run(["make", "-j%d" % common.NPROC, target], cwd=COQ, capture_output=True, text=True,
-                                   timeout=timeout)
+                m = subprocess.run(["make", "-j%d" % common.NPROC, target, "model/CheckLib.vo"], cwd=COQ,
+                                   capture_output=True, text=True, timeout=timeout)
                 if m.returncode != 0:
                     err = (m.stdout + m.stderr)
                     mm = re.search(r'File "\./([^"]+)", line (\d+)', err)
